@@ -1,7 +1,729 @@
-//! C11 driver (stub: not built yet).
-use crate::trace::Args;
+//! C11 driver: relation store (RelationSet), packed encoding (PackedRelation) and final_step.
+//!
+//! Modes (`--mode`):
+//!   hist   replays abstract histories printed by spec/relstore/RelStore.tla into a real RelationSet.
+//!          Every abstract relation is realised as a REAL valid relation for a real n = p*q (p, q = 3 mod 4):
+//!          target T = +-prod small^e * large primes with every character trivial, x = sqrt(T) by CRT,
+//!          so that only the store is under test.  After the history, one more single relation per large
+//!          prime is inserted ("closing"), which forces every stored partial / double into a published
+//!          relation.  Then final_step runs on the published set.
+//!   pack   pushes relations of TLA+-enumerated shapes through pack/unpack.
+//!   sieve  runs the real sieves (QS / MPQS / SIQS) and turns the `rel_add` hook events into events.
+//! The driver never judges: natively computed facts are used only to stay inside preconditions
+//! (inputs are valid relations; final_step is given at least one relation that survives its filter).
 
-pub fn run(_args: &Args) -> i32 {
-    eprintln!("driver c11 not built yet");
-    2
+use std::collections::{BTreeMap, HashMap};
+use std::str::FromStr;
+
+use bnum::cast::CastFrom;
+use rand::rngs::StdRng;
+use rand::seq::SliceRandom;
+use rand::Rng;
+use serde_json::{json, Value};
+
+use yamaquasi::fbase::FBase;
+use yamaquasi::relations::{self, vhook, Relation, RelationSet};
+use yamaquasi::{Algo, Int as YInt, Preferences, Verbosity};
+
+use crate::gen::{is_prime_u64, mulmod, powmod, probably_prime, rand_bits, rng_for, Uint};
+use crate::trace::*;
+
+// ------------------------------------------------------------------------------------------
+// encoding of relations for the trace
+// ------------------------------------------------------------------------------------------
+
+fn rel_value(r: &Relation) -> Value {
+    let f: Vec<Value> = r
+        .factors
+        .iter()
+        .map(|&(p, k)| {
+            if p == -1 {
+                json!({"m": true, "p": du(0), "k": k})
+            } else {
+                json!({"m": false, "p": du(p as u64), "k": k})
+            }
+        })
+        .collect();
+    json!({"x": dn(&r.x), "cof": du(r.cofactor), "len": r.cyclelen, "f": f})
+}
+
+/// exponents and cycle lengths are written as plain JSON integers: they must stay below 2^31
+fn rel_fits(r: &Relation) -> bool {
+    r.cyclelen < (1 << 31) && r.factors.iter().all(|&(p, k)| k < (1 << 31) && (p == -1 || p >= 0))
+}
+
+fn rel_from_hook(v: &Value) -> Relation {
+    let x = Uint::from_str(v["x"].as_str().unwrap()).expect("decimal x");
+    let f = v["f"].as_array().unwrap().iter().map(|t| (t[0].as_i64().unwrap(), t[1].as_u64().unwrap())).collect();
+    Relation { x, cofactor: v["cof"].as_u64().unwrap(), cyclelen: v["len"].as_u64().unwrap(), factors: f }
+}
+
+/// x^2 = prod p^k * cofactor (mod n), with the harness's own arithmetic (input filter only)
+fn native_valid(r: &Relation, n: &Uint) -> bool {
+    let mut prod = Uint::from(r.cofactor) % *n;
+    let mut neg = false;
+    for &(p, k) in &r.factors {
+        if p == -1 {
+            if k % 2 == 1 {
+                neg = !neg;
+            }
+        } else if p <= 0 {
+            return false;
+        } else {
+            prod = mulmod(&prod, &powmod(&Uint::from(p as u64), &Uint::from(k), n), n);
+        }
+    }
+    if neg && !prod.is_zero() {
+        prod = *n - prod;
+    }
+    mulmod(&(r.x % *n), &(r.x % *n), n) == prod
+}
+
+/// Does at least one relation survive the singleton filter of final_step?  (precondition: with no
+/// survivor final_step calls kernel_gauss on zero columns, the documented C03 edge)
+fn some_survivor(rels: &[Relation], fb: &FBase) -> bool {
+    let mut occ: HashMap<i64, u64> = HashMap::new();
+    for r in rels {
+        for &(f, k) in &r.factors {
+            if k % 2 == 1 && (f == -1 || fb.idx(f as u32).is_some()) {
+                *occ.entry(f).or_insert(0) += 1;
+            }
+        }
+    }
+    rels.iter().any(|r| r.factors.iter().all(|&(f, k)| k % 2 == 0 || occ.get(&f).copied().unwrap_or(0) > 1))
+}
+
+fn merge(mut base: Value, r: Result<Value, Value>) -> Value {
+    let extra = match r {
+        Ok(v) => v,
+        Err(v) => v,
+    };
+    if let (Some(b), Some(e)) = (base.as_object_mut(), extra.as_object()) {
+        for (k, v) in e {
+            b.insert(k.clone(), v.clone());
+        }
+    }
+    base
+}
+
+fn final_step_event(out: &mut Out, case: &str, src: &str, n: &Uint, fb: &FBase, rels: &[Relation]) {
+    let base = json!({"op": "final_step", "case": case, "src": src, "n": dn(n), "nd": n.to_string(),
+                      "nrels": rels.len(), "fb": fb.len()});
+    let (n2, rels2) = (*n, rels.to_vec());
+    let fb2 = fb.clone();
+    let r = guard_deadline(1200.0, move || relations::final_step(&n2, &fb2, &rels2, Verbosity::Silent));
+    let r = r.map(|divs| json!({"divs": divs.iter().map(dn).collect::<Vec<_>>(),
+                                "divsd": divs.iter().map(|d| d.to_string()).collect::<Vec<_>>()}));
+    out.ev(merge(base, r));
+}
+
+// ------------------------------------------------------------------------------------------
+// hist mode
+// ------------------------------------------------------------------------------------------
+
+/// a modulus with the data needed to build valid relations
+struct Ctx {
+    n: Uint,
+    ps: Vec<Uint>,       // prime factors, all = 3 mod 4
+    fb: FBase,
+    plus: Vec<i64>,      // factor base primes that are squares modulo every prime factor
+    minus: Vec<i64>,     // -1 (if allowed) and factor base primes that are non-squares modulo every prime factor
+}
+
+fn prime_3mod4(rng: &mut StdRng, bits: u32) -> Uint {
+    loop {
+        let c = rand_bits(rng, bits) | Uint::from(3u64);
+        if c.bits() == bits && probably_prime(rng, &c) {
+            return c;
+        }
+    }
+}
+
+fn is_square_mod(a: &Uint, p: &Uint) -> bool {
+    let e = (*p - Uint::ONE) >> 1;
+    powmod(a, &e, p).is_one()
+}
+
+fn new_ctx(rng: &mut StdRng, nbits: u32, nfac: u32, fbsize: u32) -> Ctx {
+    loop {
+        let mut ps = vec![];
+        let mut n = Uint::ONE;
+        for i in 0..nfac {
+            let b = if i + 1 == nfac { nbits - (nbits / nfac) * (nfac - 1) } else { nbits / nfac };
+            let p = prime_3mod4(rng, b);
+            n = n * p;
+            ps.push(p);
+        }
+        ps.sort();
+        ps.dedup();
+        if ps.len() != nfac as usize {
+            continue;
+        }
+        let fb = FBase::new(YInt::cast_from(n), fbsize);
+        let (mut plus, mut minus) = (vec![], vec![]);
+        if nfac == 2 {
+            minus.push(-1); // -1 is a non-square modulo both prime factors
+        }
+        for &s in &fb.primes {
+            let su = Uint::from(s as u64);
+            let chars: Vec<bool> = ps.iter().map(|p| is_square_mod(&su, p)).collect();
+            if chars.iter().all(|&c| c) {
+                plus.push(s as i64);
+            } else if chars.iter().all(|&c| !c) && nfac == 2 {
+                minus.push(s as i64);
+            }
+        }
+        if plus.len() >= 3 && (nfac != 2 || minus.len() >= 3) {
+            return Ctx { n, ps, fb, plus, minus };
+        }
+    }
+}
+
+/// a prime above the factor base, below `hi`, that is a square modulo every prime factor of n
+fn large_prime(rng: &mut StdRng, ctx: &Ctx, lo: u64, hi: u64) -> u64 {
+    loop {
+        let c = rng.gen_range(lo..hi) | 1;
+        if c < hi && is_prime_u64(c) && ctx.ps.iter().all(|p| is_square_mod(&Uint::from(c), p)) {
+            return c;
+        }
+    }
+}
+
+/// square root of t modulo n (t a square modulo every prime factor, all = 3 mod 4), random signs
+fn sqrt_crt(rng: &mut StdRng, ctx: &Ctx, t: &Uint) -> Uint {
+    let mut x = Uint::ZERO;
+    let mut m = Uint::ONE;
+    for p in &ctx.ps {
+        let e = (*p + Uint::ONE) >> 2;
+        let mut r = powmod(&(*t % *p), &e, p);
+        if rng.gen_bool(0.5) && !r.is_zero() {
+            r = *p - r;
+        }
+        // x' = x + m * ((r - x) / m mod p)
+        let minv = powmod(&(m % *p), &(*p - Uint::from(2u64)), p);
+        let d = ((r + *p) - (x % *p)) % *p;
+        let k = mulmod(&d, &minv, p);
+        x = x + m * k;
+        m = m * *p;
+    }
+    x
+}
+
+/// odd set: even number of "minus" elements, non-empty
+fn odd_vector(rng: &mut StdRng, ctx: &Ctx) -> Vec<i64> {
+    loop {
+        let mut v: Vec<i64> = vec![];
+        let nplus = rng.gen_range(0..=2usize);
+        let mut nminus = if ctx.minus.is_empty() { 0 } else { 2 * rng.gen_range(0..=1usize) };
+        if nplus + nminus == 0 {
+            continue;
+        }
+        nminus = nminus.min(ctx.minus.len() / 2 * 2);
+        v.extend(ctx.plus.choose_multiple(rng, nplus.min(ctx.plus.len())).copied());
+        // favour the sign among the minus elements: it is the special case of the encoding
+        if nminus > 0 && ctx.minus[0] == -1 && rng.gen_bool(0.6) {
+            v.push(-1);
+            v.extend(ctx.minus[1..].choose_multiple(rng, nminus - 1).copied());
+        } else {
+            v.extend(ctx.minus.choose_multiple(rng, nminus).copied());
+        }
+        v.sort();
+        v.dedup();
+        if !v.is_empty() {
+            return v;
+        }
+    }
+}
+
+fn xor_sets(a: &[i64], b: &[i64]) -> Vec<i64> {
+    let mut v: Vec<i64> = a.iter().filter(|x| !b.contains(x)).copied().collect();
+    v.extend(b.iter().filter(|x| !a.contains(x)).copied());
+    v.sort();
+    v
+}
+
+/// a real relation with the given odd set and cofactor
+fn realise(rng: &mut StdRng, ctx: &Ctx, odd: &[i64], cofactor: u64) -> Relation {
+    let mut exps: BTreeMap<i64, u64> = BTreeMap::new();
+    for &s in odd {
+        exps.insert(s, if s != -1 && rng.gen_bool(0.25) { 3 } else { 1 });
+    }
+    // even part
+    let all: Vec<i64> = ctx.fb.primes.iter().map(|&p| p as i64).collect();
+    for _ in 0..rng.gen_range(0..=3) {
+        let s = *all.choose(rng).unwrap();
+        let e = [2u64, 2, 4, 6][rng.gen_range(0..4)];
+        *exps.entry(s).or_insert(0) += e;
+    }
+    if rng.gen_bool(0.08) {
+        // exponents of two bytes in the compact form
+        let s = all[0];
+        *exps.entry(s).or_insert(0) += [126u64, 128, 130][rng.gen_range(0..3)];
+    }
+    if rng.gen_bool(0.05) && !odd.contains(&-1) {
+        exps.insert(-1, 2); // an even power of the sign: dropped by the compact form
+    }
+    let mut t = Uint::from(cofactor) % ctx.n;
+    let mut neg = false;
+    let mut factors = vec![];
+    for (&s, &e) in &exps {
+        factors.push((s, e));
+        if s == -1 {
+            neg ^= e % 2 == 1;
+        } else {
+            t = mulmod(&t, &powmod(&Uint::from(s as u64), &Uint::from(e), &ctx.n), &ctx.n);
+        }
+    }
+    if neg {
+        t = ctx.n - t;
+    }
+    let x = sqrt_crt(rng, ctx, &t);
+    let r = Relation { x, cofactor, cyclelen: 1, factors };
+    assert!(native_valid(&r, &ctx.n), "harness built an invalid relation");
+    r
+}
+
+fn odd_of(r: &Relation) -> Vec<i64> {
+    let mut m: BTreeMap<i64, u64> = BTreeMap::new();
+    for &(p, k) in &r.factors {
+        *m.entry(p).or_insert(0) += k;
+    }
+    m.into_iter().filter(|&(_, k)| k % 2 == 1).map(|(p, _)| p).collect()
+}
+
+fn run_hist(args: &Args) -> i32 {
+    let seed = arg_u64(args, "seed", 1);
+    let hists = read_ndjson(arg_str(args, "hists", "hists.ndjson"));
+    let pack_every = arg_u64(args, "pack-every", 4) as usize;
+    let mut out = Out::create(arg_str(args, "out", "trace.ndjson"));
+    let mut rng = rng_for(seed, "c11-hist");
+    let mut ctx: Option<Ctx> = None;
+    let sizes: [(u32, u32); 8] = [(64, 2), (80, 2), (96, 2), (128, 2), (112, 2), (99, 3), (190, 2), (256, 2)];
+    for (hi, h) in hists.iter().enumerate() {
+        // a new modulus every 40 histories
+        if hi % 40 == 0 {
+            let (nbits, nfac) = sizes[(hi / 40) % sizes.len()];
+            let fbsize = [24u32, 32, 48][rng.gen_range(0..3)];
+            ctx = Some(new_ctx(&mut rng, nbits, nfac, fbsize));
+        }
+        let ctx = ctx.as_ref().unwrap();
+        let case = format!("{}-{}", arg_str(args, "tag", "h"), hi);
+        let nlp = h["nlp"].as_u64().unwrap() as usize;
+        let ops = h["h"].as_array().unwrap();
+        // large primes: one history in 5 uses the top of the 32-bit range
+        let top = hi % 5 == 0;
+        let maxlarge: u64 = if top { (1u64 << 32) - 1 } else { [1u64 << 24, 1 << 28, 3_000_000_000][rng.gen_range(0..3)] };
+        let lo = std::cmp::max(ctx.fb.bound() as u64 + 1, 1 << 16) + 1;
+        let mut lps: Vec<u64> = vec![];
+        while lps.len() < nlp {
+            let c = if top && lps.is_empty() && ctx.ps.iter().all(|p| is_square_mod(&Uint::from(4294967291u64), p)) {
+                4294967291u64 // largest prime below 2^32
+            } else if top && rng.gen_bool(0.5) {
+                large_prime(&mut rng, ctx, maxlarge - (1 << 20), maxlarge)
+            } else {
+                large_prime(&mut rng, ctx, lo, maxlarge)
+            };
+            if !lps.contains(&c) {
+                lps.push(c);
+            }
+        }
+        lps.sort();
+        // parity generators
+        let ngen = ops.iter().flat_map(|o| o["par"].as_array().unwrap().iter().map(|g| g.as_u64().unwrap())).max().unwrap_or(0).max(1) as usize;
+        let mut gens: Vec<Vec<i64>> = vec![];
+        while gens.len() < ngen {
+            let v = odd_vector(&mut rng, ctx);
+            // independent of the previous ones (at most 2 generators: distinct and non-zero is enough; for 3 also
+            // exclude the sum of the first two)
+            let dep = gens.contains(&v) || (gens.len() == 2 && xor_sets(&gens[0], &gens[1]) == v);
+            if !dep {
+                gens.push(v);
+            }
+        }
+        let odd_for = |par: &[u64]| -> Vec<i64> { par.iter().fold(vec![], |acc, &g| xor_sets(&acc, &gens[g as usize - 1])) };
+        let lpsd: Vec<Value> = lps.iter().map(|&p| du(p)).collect();
+        out.ev(json!({"op": "reset", "case": case, "n": dn(&ctx.n), "nd": ctx.n.to_string(), "maxlarge": du(maxlarge),
+                      "lps": lpsd, "lpsd": lps, "gens": gens, "model": {"cycles": h["cycles"], "partial": h["partial"], "doubles": h["doubles"]}}));
+        let mut rs = RelationSet::new(ctx.n, ctx.fb.len(), maxlarge);
+        let mut seen: Vec<(Value, Relation)> = vec![];
+        let mut packed: Vec<Relation> = vec![];
+        let mut dead = false;
+        let mut id = 0;
+        // the history, then the closing singles
+        let mut queue: Vec<Value> = ops.clone();
+        let mut closing = 0;
+        loop {
+            if dead {
+                break;
+            }
+            let aop: Value = if id < queue.len() {
+                queue[id].clone()
+            } else if closing < nlp {
+                closing += 1;
+                let p = closing; // abstract index
+                // a parity different from the stored partial's, so that the combination is published
+                let stored = vhook::partial_get(&rs, lps[p - 1]).map(|r| odd_of(&r));
+                let mut pars: Vec<Vec<u64>> = vec![vec![], vec![1]];
+                if ngen >= 2 {
+                    pars.push(vec![2]);
+                    pars.push(vec![1, 2]);
+                }
+                pars.shuffle(&mut rng);
+                let par = pars.iter().find(|pp| Some(odd_for(pp)) != stored).unwrap().clone();
+                let v = json!({"k": "s", "p": p, "q": 0, "par": par});
+                queue.push(v.clone());
+                v
+            } else {
+                break;
+            };
+            id += 1;
+            let kind = aop["k"].as_str().unwrap();
+            let (ap, aq) = (aop["p"].as_u64().unwrap() as usize, aop["q"].as_u64().unwrap() as usize);
+            let par: Vec<u64> = aop["par"].as_array().unwrap().iter().map(|g| g.as_u64().unwrap()).collect();
+            let (cof, pq) = match kind {
+                "c" => (1u64, None),
+                "s" => (lps[ap - 1], None),
+                "d" => (lps[ap - 1] * lps[aq - 1], Some((lps[ap - 1], lps[aq - 1]))),
+                _ => panic!("bad op"),
+            };
+            // an operation repeated in the history is, half of the time, the very same relation (a duplicate)
+            let dup = seen.iter().find(|(a, _)| *a == aop).map(|(_, r)| r.clone());
+            let raw = match dup {
+                Some(r) if rng.gen_bool(0.5) => r,
+                _ => realise(&mut rng, ctx, &odd_for(&par), cof),
+            };
+            seen.push((aop.clone(), raw.clone()));
+            let len0 = rs.cycles.len();
+            let base = json!({"op": "add", "case": case, "id": id, "aop": aop, "closing": id > ops.len(),
+                              "n": dn(&ctx.n), "maxlarge": du(maxlarge), "lps": lpsd, "raw": rel_value(&raw)});
+            let raw2 = raw.clone();
+            let res = guard(|| rs.add(raw2, pq));
+            let res = res.map(|_| {
+                let start = len0.min(rs.cycles.len());
+                let published: Vec<Value> = rs.cycles[start..].iter().map(rel_value).collect();
+                packed.extend(rs.cycles[start..].iter().cloned());
+                json!({"pub": published, "cycles": rs.cycles.len(), "partial": vhook::partial_keys(&rs).len(),
+                       "doubles": vhook::doubles_keys(&rs).len(), "rev": vhook::doubles_rev_keys(&rs).len()})
+            });
+            dead = res.is_err();
+            packed.push(raw);
+            out.ev(merge(base, res));
+        }
+        if dead {
+            continue;
+        }
+        // compact form of everything that went through this history (sampled)
+        if pack_every > 0 && hi % pack_every == 0 {
+            for k in vhook::partial_keys(&rs) {
+                packed.push(vhook::partial_get(&rs, k).unwrap());
+            }
+            for (j, r) in packed.iter().enumerate() {
+                pack_event(&mut out, &format!("{}/p{}", case, j), "store", r);
+            }
+        }
+        // final step on what was published
+        let cycles = rs.cycles.clone();
+        if !cycles.is_empty() && some_survivor(&cycles, &ctx.fb) {
+            final_step_event(&mut out, &case, "hist", &ctx.n, &ctx.fb, &cycles);
+        } else {
+            out.ev(json!({"op": "skip", "case": case, "why": "no relation survives the singleton filter of final_step (C03 edge)",
+                          "nrels": cycles.len()}));
+        }
+    }
+    out.finish();
+    0
+}
+
+// ------------------------------------------------------------------------------------------
+// pack mode
+// ------------------------------------------------------------------------------------------
+
+fn pack_event(out: &mut Out, case: &str, src: &str, r: &Relation) {
+    if !rel_fits(r) {
+        return;
+    }
+    let base = json!({"op": "pack", "case": case, "src": src, "r": rel_value(r)});
+    let r2 = r.clone();
+    let res = guard(move || {
+        let blob = vhook::pack_blob(r2);
+        let u = vhook::unpack_blob(blob.clone());
+        (blob, u)
+    });
+    let res = match res {
+        Ok((blob, u)) if rel_fits(&u) => Ok(json!({"blob": blob, "u": rel_value(&u)})),
+        Ok((blob, u)) => Ok(json!({"blob": blob, "outcome": "unrepresentable", "msg": format!("{:?}", u.factors)})),
+        Err(e) => Err(e),
+    };
+    out.ev(merge(base, res));
+}
+
+fn word_of(rng: &mut StdRng, shape: &str) -> u64 {
+    match shape {
+        "zero" => 0,
+        "one" => 1,
+        "b7" => [127u64, 128, 129][rng.gen_range(0..3)],
+        "b14" => [16383u64, 16384][rng.gen_range(0..2)],
+        "b63" => (1u64 << 63) - 1 + rng.gen_range(0..2),
+        "max" => u64::MAX,
+        "pow7" => 1u64 << (7 * rng.gen_range(1..=9)),
+        "pow7m1" => (1u64 << (7 * rng.gen_range(1..=9))) - 1,
+        _ => rng.gen(),
+    }
+}
+
+fn run_pack(args: &Args) -> i32 {
+    let seed = arg_u64(args, "seed", 1);
+    let shapes = read_ndjson(arg_str(args, "shapes", "packshapes.ndjson"));
+    let reps = arg_u64(args, "reps", 1);
+    let mut out = Out::create(arg_str(args, "out", "trace.ndjson"));
+    let mut rng = rng_for(seed, "c11-pack");
+    let smalls: [i64; 8] = [3, 5, 7, 11, 13, 127, 129 + 2, 16381];
+    for (si, sh) in shapes.iter().enumerate() {
+        for rep in 0..reps {
+            // x: 8 words of the given shape (the compact form keeps 512 bits)
+            let mut d = [0u64; 16];
+            let xs = sh["x"].as_str().unwrap();
+            for w in d.iter_mut().take(8) {
+                *w = word_of(&mut rng, xs);
+            }
+            if xs == "mixed" {
+                for (i, s) in ["zero", "max", "b7", "random", "pow7", "b63", "one", "pow7m1"].iter().enumerate() {
+                    d[i] = word_of(&mut rng, s);
+                }
+            }
+            let x = Uint::from_digits(d);
+            let cofactor = word_of(&mut rng, sh["cof"].as_str().unwrap());
+            let cyclelen = match sh["len"].as_str().unwrap() {
+                "one" => 1,
+                "b7" => [127u64, 128, 129][rng.gen_range(0..3)],
+                _ => rng.gen_range(2..20),
+            };
+            let mut factors: Vec<(i64, u64)> = vec![];
+            for f in sh["fs"].as_array().unwrap() {
+                let p: i64 = match f["p"].as_str().unwrap() {
+                    "neg" => -1,
+                    "two" => 2,
+                    "three" => 3,
+                    "small" => *smalls.choose(&mut rng).unwrap(),
+                    "p16" => 65537,
+                    "p24" => 16777213,
+                    "p31" => 2147483647,
+                    "p32" => 4294967291,
+                    _ => panic!("bad prime shape"),
+                };
+                let k: u64 = match f["k"].as_str().unwrap() {
+                    "zero" => 0,
+                    "one" => 1,
+                    "two" => 2,
+                    "three" => 3,
+                    "b7lo" => 127,
+                    "b7" => 128,
+                    "b7hi" => 129,
+                    "b14" => [16383u64, 16384][rng.gen_range(0..2)],
+                    "big" => (1u64 << 31) - 1,
+                    _ => panic!("bad exponent shape"),
+                };
+                if k == 0 && p != -1 {
+                    continue; // pack requires k > 0 for primes (asserted; never produced by the sieves)
+                }
+                factors.push((p, k));
+            }
+            let r = Relation { x, cofactor, cyclelen, factors };
+            pack_event(&mut out, &format!("s{}/{}", si, rep), "shape", &r);
+        }
+    }
+    out.finish();
+    0
+}
+
+// ------------------------------------------------------------------------------------------
+// sieve mode
+// ------------------------------------------------------------------------------------------
+
+fn random_prime(rng: &mut StdRng, bits: u32) -> Uint {
+    loop {
+        let c = rand_bits(rng, bits) | Uint::ONE;
+        if probably_prime(rng, &c) {
+            return c;
+        }
+    }
+}
+
+fn run_sieve(args: &Args) -> i32 {
+    let seed = arg_u64(args, "seed", 1);
+    let thorough = arg_str(args, "tier", "quick") == "thorough";
+    let max_rel = arg_u64(args, "max-rel", if thorough { 100000 } else { 120 }) as usize;
+    let max_raw = arg_u64(args, "max-raw", if thorough { 400 } else { 40 }) as usize;
+    let mut out = Out::create(arg_str(args, "out", "trace.ndjson"));
+    let mut rng = rng_for(seed, "c11-sieve");
+    // (bits, algorithm, use_double, threads)
+    let mut runs: Vec<(u32, Algo, bool, usize)> = vec![
+        (60, Algo::Qs, false, 1),
+        (72, Algo::Qs, true, 4),
+        (80, Algo::Mpqs, false, 4),
+        (90, Algo::Mpqs, true, 1),
+        (96, Algo::Siqs, true, 4),
+        (110, Algo::Siqs, false, 1),
+    ];
+    if thorough {
+        runs.extend([
+            (66, Algo::Mpqs, true, 1),
+            (84, Algo::Qs, true, 1),
+            (100, Algo::Qs, false, 4),
+            (100, Algo::Mpqs, true, 4),
+            (104, Algo::Siqs, true, 1),
+            (110, Algo::Siqs, true, 4),
+            (76, Algo::Siqs, false, 4),
+            (120, Algo::Siqs, true, 4),
+        ]);
+    }
+    for (ri, &(bits, alg, use_double, threads)) in runs.iter().enumerate() {
+        let case = format!("sv{}-{:?}-{}b-d{}-t{}", ri, alg, bits, use_double as u8, threads);
+        let (p, q) = (random_prime(&mut rng, bits / 2), random_prime(&mut rng, bits - bits / 2));
+        let n = p * q;
+        yamaquasi::verif::start();
+        let res = guard_deadline(1800.0, move || {
+            let mut prefs = Preferences::default();
+            prefs.verbosity = Verbosity::Silent;
+            prefs.use_double = Some(use_double);
+            prefs.threads = if threads > 1 { Some(threads) } else { None };
+            yamaquasi::factor(n, alg, &prefs).map_err(|e| format!("{:?}", e))
+        });
+        let evs = yamaquasi::verif::stop();
+        let mut nadd = 0usize;
+        let mut kinds: HashMap<String, usize> = HashMap::new();
+        let mut cycles: Vec<Relation> = vec![];
+        let mut store_n: Option<Uint> = None;
+        let mut rels: Vec<(Relation, Uint)> = vec![];
+        let mut raws: Vec<(Relation, Uint)> = vec![];
+        let mut bad_raws: Vec<(Relation, Uint)> = vec![];
+        let mut maxsmall = 0i64;
+        let mut last = (0u64, 0u64, 0u64);
+        for s in &evs {
+            if !s.contains("\"op\":\"rel_add\"") {
+                continue;
+            }
+            let v: Value = serde_json::from_str(s).expect("hook event is not JSON");
+            let sn = Uint::from_str(v["n"].as_str().unwrap()).unwrap();
+            store_n = Some(sn);
+            if v["ph"] == "enter" {
+                nadd += 1;
+                *kinds.entry(v["kind"].as_str().unwrap().to_string()).or_insert(0) += 1;
+                let r = rel_from_hook(&v["rel"]);
+                for &(p, _) in &r.factors {
+                    maxsmall = maxsmall.max(p);
+                }
+                if native_valid(&r, &sn) {
+                    raws.push((r, sn));
+                } else {
+                    bad_raws.push((r, sn));
+                }
+            } else {
+                for pr in v["pub"].as_array().unwrap() {
+                    let r = rel_from_hook(pr);
+                    cycles.push(r.clone());
+                    rels.push((r, sn));
+                }
+                last = (v["cycles"].as_u64().unwrap(), v["partial"].as_u64().unwrap(), v["doubles"].as_u64().unwrap());
+            }
+        }
+        let outcome = match &res {
+            Ok(Ok(fs)) => json!({"factors": fs.iter().map(|f| f.to_string()).collect::<Vec<_>>()}),
+            Ok(Err(e)) => json!({"failed": e}),
+            Err(e) => e.clone(),
+        };
+        let by_len = |lo: u64, hi: u64| rels.iter().filter(|(r, _)| r.cyclelen >= lo && r.cyclelen <= hi).count();
+        out.ev(json!({"op": "reset", "case": case, "run": {"alg": format!("{:?}", alg), "bits": bits, "use_double": use_double,
+                      "threads": threads, "nd": n.to_string(), "adds": nadd, "kinds": kinds, "published": rels.len(),
+                      "len1": by_len(1, 1), "len2": by_len(2, 2), "len3plus": by_len(3, u64::MAX),
+                      "cycles": last.0, "partial": last.1, "doubles": last.2, "invalid_raws": bad_raws.len(), "result": outcome}}));
+        // inputs that are not valid relations (none expected): the spec decides (witness)
+        for (j, (r, sn)) in bad_raws.iter().enumerate() {
+            out.ev(json!({"op": "raw", "case": format!("{}/bad{}", case, j), "n": dn(sn), "nd": sn.to_string(), "r": rel_value(r)}));
+        }
+        // a sample of the inputs
+        let mut idx: Vec<usize> = (0..raws.len()).collect();
+        idx.shuffle(&mut rng);
+        for &j in idx.iter().take(max_raw) {
+            let (r, sn) = &raws[j];
+            out.ev(json!({"op": "raw", "case": format!("{}/raw{}", case, j), "n": dn(sn), "nd": sn.to_string(), "r": rel_value(r)}));
+        }
+        // published relations: all the combined ones first (cycle length >= 2), then plain ones, up to max_rel
+        let mut order: Vec<usize> = (0..rels.len()).collect();
+        order.shuffle(&mut rng);
+        order.sort_by_key(|&j| std::cmp::Reverse(rels[j].0.cyclelen.min(3)));
+        for &j in order.iter().take(max_rel) {
+            let (r, sn) = &rels[j];
+            out.ev(json!({"op": "rel", "case": format!("{}/rel{}", case, j), "n": dn(sn), "nd": sn.to_string(),
+                          "alg": format!("{:?}", alg), "r": rel_value(r)}));
+            if j % 7 == 0 {
+                pack_event(&mut out, &format!("{}/pk{}", case, j), "sieve", r);
+            }
+        }
+        // final step on sets of (natively valid) published relations
+        let Some(sn) = store_n else { continue };
+        if !bad_raws.is_empty() || cycles.is_empty() {
+            continue;
+        }
+        if let Some((j, _)) = cycles.iter().enumerate().find(|(_, r)| !native_valid(r, &sn)) {
+            // already forwarded above if sampled; make sure it is judged
+            out.ev(json!({"op": "rel", "case": format!("{}/invalid{}", case, j), "n": dn(&sn), "nd": sn.to_string(),
+                          "alg": format!("{:?}", alg), "r": rel_value(&cycles[j])}));
+            continue;
+        }
+        // a factor base that contains every small prime of the inputs
+        let mut size = 16u32;
+        let fb = loop {
+            let fb = FBase::new(YInt::cast_from(sn), size);
+            if fb.bound() as i64 >= maxsmall || size > 200000 {
+                break fb;
+            }
+            size *= 2;
+        };
+        let nsets = if thorough { 6 } else { 3 };
+        for k in 0..nsets {
+            let set: Vec<Relation> = match k {
+                0 => cycles.clone(),
+                1 => {
+                    let mut v = cycles.clone();
+                    v.shuffle(&mut rng);
+                    v.truncate(cycles.len() * 3 / 4);
+                    v
+                }
+                2 => {
+                    // duplicates and combined relations first
+                    let mut v: Vec<Relation> = cycles.iter().filter(|r| r.cyclelen >= 2).cloned().collect();
+                    v.extend(cycles.iter().take(cycles.len() / 2).cloned());
+                    v.extend(cycles.iter().take(20).cloned());
+                    v
+                }
+                3 => cycles.iter().take(cycles.len() / 2).cloned().collect(),
+                4 => cycles.iter().rev().cloned().collect(),
+                _ => {
+                    let mut v = cycles.clone();
+                    v.shuffle(&mut rng);
+                    v.truncate(cycles.len() / 3);
+                    v
+                }
+            };
+            if set.is_empty() || !some_survivor(&set, &fb) {
+                continue;
+            }
+            final_step_event(&mut out, &format!("{}/fs{}", case, k), "sieve", &n, &fb, &set);
+        }
+    }
+    out.finish();
+    0
+}
+
+pub fn run(args: &Args) -> i32 {
+    match arg_str(args, "mode", "hist") {
+        "hist" => run_hist(args),
+        "pack" => run_pack(args),
+        "sieve" => run_sieve(args),
+        m => {
+            eprintln!("c11: unknown mode {}", m);
+            2
+        }
+    }
 }
